@@ -7,6 +7,10 @@
 //!       exposed or hidden —, private Merkle siblings)
 //!   F3  one slot += 1 in every row scalar that mentions it, nothing recomputed
 //!   F4  one input port of one row reads value+1 (row-local), the row's result propagated
+//!   F5  one slot-less input limb of one permutation row (inherited from the previous row of
+//!       its chain inside the table, or the zero of an un-fed limb of a `new_start` sponge row)
+//!       takes value+1; the row is re-executed by the repository's executor from the deviated
+//!       state and its outputs are propagated (chained rows, `out_ctl` slots, dependent ops)
 //! is applied to the honest traces; the repository's real `prove_all_tables` +
 //! `verify_all_tables` (release) gives the verdict; the reference predicate
 //! (`vpe3::predicate`) says whether the committed values still are one satisfying assignment.
@@ -237,7 +241,7 @@ fn main() {
     let cov = json!({
         "evaluations": evaluations,
         "distinct_nontrivial": nontrivial,
-        "rule": "one evaluation = one single fault (class F1 cell+1 / F2 slot changed with forward propagation / F3 slot changed in all rows without propagation / F4 row-local port deviation with propagation) applied to the honest traces of one catalogue circuit, proved and verified by the real prover/verifier; faults are all distinct by construction (every cell, slot, port once per delta unit); non-trivial = the reference predicate is FALSE on the committed values (the fault really breaks 'one satisfying assignment'), so a correct verifier must reject it",
+        "rule": "one evaluation = one single fault (class F1 cell+1 / F2 slot changed with forward propagation / F3 slot changed in all rows without propagation / F4 row-local port deviation with propagation / F5 slot-less (table-inherited or un-fed) input limb of a permutation row deviated, the row re-executed by the repository's executor and its outputs propagated through the chain, the out_ctl slots and dependent ops) applied to the honest traces of one catalogue circuit, proved and verified by the real prover/verifier; faults are all distinct by construction (every cell, slot, port, slot-less permutation limb once per delta unit); non-trivial = the reference predicate is FALSE on the committed values (the fault really breaks 'one satisfying assignment'), so a correct verifier must reject it",
         "samples": *samples.lock().unwrap(),
         "exhaustive": exhaustive,
         "circuits": circuits_json,
@@ -260,7 +264,7 @@ fn main() {
             "the repository's NPO executors with the honest permutation define 'the true function of its inputs' for permutation / recomposition rows".into(),
             "deviation size is +1 (quick: base unit; thorough: also the top basis element); values are not enumerated, positions are".into(),
             "matrix cells are decoded by differential probing of the repository's own trace->matrix code; cells that are neither a verbatim copy of a trace scalar nor a permutation output (round states, packed-Horner intermediates, padding) carry no claim: accepting a change there is not counted as a violation".into(),
-            "flag cells of permutation rows (direction bits, new_start) are not decoded: a single-cell change there is judged 'no claim changed'; slot-less permutation inputs (chained state, private siblings) are deviated through F1 (cell only) and F2 on the private sibling (with propagation), not row-locally with re-derivation of the chain".into(),
+            "flag cells of permutation rows (direction bits, new_start) are not decoded: a single-cell change there is judged 'no claim changed'; slot-less permutation inputs are deviated through F1 (cell only), F2 on the private sibling (with propagation) and F5 (inherited / un-fed limb +1, row re-executed, chain and exposed outputs re-derived); F5 does not cover new_start Merkle rows (their slot-less half is the private sibling)".into(),
             "F4 on a HornerAcc accumulator also writes the deviated value into the `out` cells of the previous ALU matrix row (where the AIR reads it) through hook H4".into(),
             "Merkle arity-4 / width-24/32 permutation tables and Poseidon1 tables are not in the catalogue; builder programs with aliased slots (E1 families) are only covered by the opt-in stage `--opt programs=1`, which is not part of the verdict".into(),
         ],
